@@ -15,7 +15,7 @@ RDiv(a, b) == RNorm(a[1] * b[2], a[2] * b[1])
 RLt(a, b) == a[1] * b[2] < b[1] * a[2]
 RLe(a, b) == a[1] * b[2] <= b[1] * a[2]
 RGt(a, b) == RLt(b, a)
-REq(a, b) == a[1] * b[2] = b[1] * a[2]
+REq(a, b) == a = b      \* both reduced with positive denominators: equal iff identical (no products, no overflow)
 RZero == <<0, 1>>
 ROne == <<1, 1>>
 RIsZero(a) == a[1] = 0
